@@ -5,6 +5,7 @@ case files, and the numpy-free exact references used by the property-level oracl
 (Not a property module: tools/gen_manifest.py only looks at props/c[0-9]*.py.)
 """
 import contextlib
+import copy
 import json
 import math
 import os
@@ -93,7 +94,9 @@ def make_user_model(name, as_lambda=False):
         return g
     return f
 
-MODES = ("lists", "arrays", "marray", "marray_kwerr", "dataset", "dataset_method", "kwargs")
+MODES = ("lists", "arrays", "marray", "marray_kwerr", "dataset", "dataset_method", "dataset_kw", "plot_fit", "kwargs")
+NUMTYPES = ("int", "np.int32", "np.float32", "np.float64", "Fraction", "array-int64", "array-float32")
+PARNAME_POOL = ("a", "b", "slope", "intercept", "k", "a", "amplitude", "mean", "x")
 EXN = {"ValueError": "EValue", "TypeError": "EType"}
 
 
@@ -327,6 +330,19 @@ def gen_poly_case(rng, malformed=False):
         case["xrange"] = rng.choice(["empty_tuple", "empty_list"])
     if rng.random() < 0.5:
         case["xrange_type"] = "list"
+    add_dimensions(rng, case)
+    if case["mode"] == "plot_fit" and case["xrange"] is not None:
+        case["mode"] = "dataset_kw"
+    if rng.random() < 0.2:
+        # the same data in other units (y and sigma_y times 2^-30 ~ 1e-9, 2^-40 ~ 1e-12 or 2^30 ~ 1e9)
+        k = rng.choice([2.0 ** -30, 2.0 ** -40, 2.0 ** 30])
+        case["ys"] = [y * k for y in case["ys"]]
+        case["yscale"] = k
+        if case["yerr"] is not None:
+            case["yerr"] = [e * k for e in case["yerr"]] if isinstance(case["yerr"], list) else case["yerr"] * k
+    if isinstance(case["yerr"], list) and rng.random() < 0.15:
+        i = rng.randrange(n)
+        case["yerr"][i] = case["yerr"][i] / 64.0          # one much smaller uncertainty among ordinary ones
     if malformed:
         what = rng.choice(["lo>hi", "badlen", "nonreal", "few", "empty", "toofew_all"])
         case["malformed"] = what
@@ -350,6 +366,56 @@ def gen_poly_case(rng, malformed=False):
                     case[key] = case[key][:npar]
             case["xrange"] = None
     return case
+
+
+def add_dimensions(rng, case):
+    """recurring blind spots: order of the data, number types, parameter names (equal names too), data that were read /
+    used in arithmetic before the fit"""
+    r = rng.random()
+    if r < 0.12 or r > 0.94:
+        order = sorted(range(len(case["xs"])), key=lambda i: case["xs"][i], reverse=r > 0.94)
+        for key in ("xs", "ys", "xerr", "yerr"):
+            if isinstance(case.get(key), list):
+                case[key] = [case[key][i] for i in order]
+        case["order"] = "descending" if r > 0.94 else "ascending"
+    if case["kind"] == "poly" and rng.random() < 0.25:
+        case["numtype"] = rng.choice(NUMTYPES)
+    if rng.random() < 0.2:
+        npar = nparams_of(case)
+        case["parnames"] = [rng.choice(PARNAME_POOL) for _ in range(npar)]      # equal names happen
+    if rng.random() < 0.2:
+        case["preread"] = True
+
+
+def convert_numbers(case, values):
+    """the numbers in another Python / numpy type, when every one of them is exactly representable there"""
+    import numpy as np
+    from fractions import Fraction
+    t = case.get("numtype")
+    if t is None or values is None:
+        return values
+    scalar = not isinstance(values, list)
+    vals = [values] if scalar else list(values)
+    try:
+        if t == "int":
+            out = [int(v) for v in vals]
+        elif t == "np.int32":
+            out = [np.int32(v) for v in vals]
+        elif t == "np.float32":
+            out = [np.float32(v) for v in vals]
+        elif t == "np.float64":
+            out = [np.float64(v) for v in vals]
+        elif t == "Fraction":
+            out = [Fraction(v) for v in vals]
+        elif t == "array-int64":
+            out = np.array(vals, dtype=np.int64) if not scalar else [int(vals[0])]
+        else:
+            out = np.array(vals, dtype=np.float32) if not scalar else [np.float32(vals[0])]
+        if any(float(o) != float(v) for o, v in zip(out, vals)):
+            return values
+    except (ValueError, TypeError, OverflowError):
+        return values
+    return out[0] if scalar else out
 
 
 def well_posed_poly(case):
@@ -438,6 +504,9 @@ def gen_curve_case(rng, noise_free=False, model=None, yscale=None):
             case["yerr"] = scale / 16.0
     if rng.random() < 0.25 and n >= nparams_of(case) + 4:
         case["xrange"] = gen_xrange(rng, xs, nparams_of(case) + 1)
+    add_dimensions(rng, case)
+    if case["mode"] == "plot_fit" and case["xrange"] is not None:
+        case["mode"] = "dataset_kw"
     return case
 
 
@@ -489,19 +558,20 @@ def recording(rec):
         rec.deriv.append({"x0": [float(v) for v in np.atleast_1d(x0)], "out": [float(v) for v in np.atleast_1d(out)]})
         return out
 
-    o_result = ff.XYFitResult
+    o_init = ff.XYFitResult.__init__
 
-    def result(**kw):
+    def init(self, **kw):
+        # (the class itself stays in place: other modules test isinstance(result, XYFitResult))
         rec.result_args.append({"params": kw.get("res_params"), "pcorr": kw.get("pcorr")})
-        return o_result(**kw)
+        return o_init(self, **kw)
 
     ff.np.polyfit, ff.opt.curve_fit, ff.utils.numerical_derivative = polyfit, curve_fit, numerical_derivative
-    ff.XYFitResult = result
+    ff.XYFitResult.__init__ = init
     try:
         yield rec
     finally:
         ff.np.polyfit, ff.opt.curve_fit, ff.utils.numerical_derivative = o_poly, o_curve, o_deriv
-        ff.XYFitResult = o_result
+        ff.XYFitResult.__init__ = o_init
 
 
 def model_arg(case):
@@ -543,35 +613,72 @@ def call_fit(case):
         kw["parguess"] = list(case["guess"])
     if case["xrange"] is not None:
         kw["xrange"] = xrange_arg(case)
-    xs, ys, xerr, yerr = list(case["xs"]), list(case["ys"]), case["xerr"], case["yerr"]
+    if case.get("parnames"):
+        kw["parnames"] = list(case["parnames"])
+    xs, ys = convert_numbers(case, list(case["xs"])), convert_numbers(case, list(case["ys"]))
+    xerr, yerr = convert_numbers(case, case["xerr"]), convert_numbers(case, case["yerr"])
+    if isinstance(kw.get("xrange"), (tuple, list)) and len(kw["xrange"]) == 2 and case.get("numtype") \
+            and not isinstance(kw["xrange"][0], str):
+        kw["xrange"] = type(kw["xrange"])(convert_numbers(case, [float(v) for v in kw["xrange"]]))
     model = model_arg(case)
     mode = case["mode"]
+    aslist = (lambda v: v if isinstance(v, np.ndarray) else list(v))
 
     def errkw():
         e = {}
         if xerr is not None:
-            e["xerr"] = list(xerr) if isinstance(xerr, list) else xerr
+            e["xerr"] = aslist(xerr) if isinstance(xerr, (list, np.ndarray)) else xerr
         if yerr is not None:
-            e["yerr"] = list(yerr) if isinstance(yerr, list) else yerr
+            e["yerr"] = aslist(yerr) if isinstance(yerr, (list, np.ndarray)) else yerr
         return e
+
+    def preread(*objs):
+        """the data are looked at / used before they are fitted"""
+        if case.get("preread"):
+            for o in objs:
+                _ = str(o)
+                if hasattr(o, "values"):
+                    _ = o.values, o.errors, o.mean(), (o * 2 + 1)[0].value
+                if hasattr(o, "xdata"):
+                    _ = str(o.xdata), o.xvalues, o.yerr, (o.xdata + o.ydata)[0].error
     if mode == "lists":
-        return q.fit(xs, ys, model, **errkw(), **kw)
+        return q.fit(aslist(xs), aslist(ys), model, **errkw(), **kw)
     if mode == "arrays":
         e = {k: (np.array(v) if isinstance(v, list) else v) for k, v in errkw().items()}
         return q.fit(np.array(xs), np.array(ys), model, **e, **kw)
     if mode == "marray":
-        xa = q.MeasurementArray(xs, xerr) if xerr is not None else q.MeasurementArray(xs)
-        ya = q.MeasurementArray(ys, yerr) if yerr is not None else q.MeasurementArray(ys)
+        xa = q.MeasurementArray(aslist(xs), xerr) if xerr is not None else q.MeasurementArray(aslist(xs))
+        ya = q.MeasurementArray(aslist(ys), yerr) if yerr is not None else q.MeasurementArray(aslist(ys))
+        preread(xa, ya)
         return q.fit(xa, ya, model, **kw)
     if mode == "marray_kwerr":
         # MeasurementArrays created without uncertainties, the uncertainties given to fit()
-        return q.fit(q.MeasurementArray(xs), q.MeasurementArray(ys), model, **errkw(), **kw)
+        xa, ya = q.MeasurementArray(aslist(xs)), q.MeasurementArray(aslist(ys))
+        preread(xa, ya)
+        return q.fit(xa, ya, model, **errkw(), **kw)
     if mode == "dataset":
-        return q.fit(q.XYDataSet(xs, ys, **errkw()), model, **kw)
+        ds = q.XYDataSet(aslist(xs), aslist(ys), **errkw())
+        preread(ds)
+        return q.fit(ds, model, **kw)
     if mode == "dataset_method":
-        return q.XYDataSet(xdata=xs, ydata=ys, **errkw()).fit(model, **kw)
+        ds = q.XYDataSet(xdata=aslist(xs), ydata=aslist(ys), **errkw())
+        preread(ds)
+        return ds.fit(model, **kw)
+    if mode == "dataset_kw":
+        ds = q.XYDataSet(aslist(xs), aslist(ys), **errkw())
+        preread(ds)
+        return q.fit(dataset=ds, model=model, **kw)
+    if mode == "plot_fit":
+        # the fit entry point of a figure: fits the last data set added to the plot
+        import qexpy.plotting as qplt
+        import matplotlib.pyplot as pyplot
+        fig = qplt.plot(aslist(xs), aslist(ys), **errkw())
+        try:
+            return fig.fit(model=model, **kw)
+        finally:
+            pyplot.close("all")
     if mode == "kwargs":
-        return q.fit(xdata=xs, ydata=ys, model=model, **errkw(), **kw)
+        return q.fit(xdata=aslist(xs), ydata=aslist(ys), model=model, **errkw(), **kw)
     raise ValueError(mode)
 
 
@@ -629,7 +736,7 @@ def run_call(thunk, case, observe_result=False):
 #         "xs", "ys", "xerr", "yerr": the data the object is created with,
 #         "requests": [ {kind, model, deg, designator, degrees_kw, xrange, xrange_type, guess, ...}, ... ],
 #         "steps": [ ["fit", k] | ["yerr", [..]] | ["xerr", [..]] | ["y", i, v] | ["yerr1", i, e] | ["xerr1", i, e] ]}
-REQ_KEYS = ("kind", "model", "deg", "designator", "degrees_kw", "xrange", "xrange_type", "guess", "truth", "noise_free", "as_lambda")
+REQ_KEYS = ("malformed", "kind", "model", "deg", "designator", "degrees_kw", "xrange", "xrange_type", "guess", "truth", "noise_free", "as_lambda", "parnames")
 
 
 def request_of(case):
@@ -674,6 +781,8 @@ def history_in_domain(case):
     for _, _, cur in states:
         if not in_domain(cur):
             return False
+        if cur.get("malformed"):
+            continue
         if cur["kind"] == "poly" and not well_posed_poly(cur):
             return False
         if cur["kind"] == "curve" and not any(e > 0 for e in cur["yerr"]) and any(e > 0 for e in cur["xerr"]):
@@ -712,6 +821,8 @@ def run_history(case, observe_result=False):
                 kw["parguess"] = list(cur["guess"])
             if cur["xrange"] is not None:
                 kw["xrange"] = xrange_arg(cur)
+            if cur.get("parnames"):
+                kw["parnames"] = list(cur["parnames"])
             model = model_arg(cur)
             if holder == "marrays":
                 thunk = (lambda m=model, kw=kw: q.fit(xa, ya, m, **kw))
@@ -757,9 +868,11 @@ def gen_history(rng, curve=None):
                 other["xrange"] = gen_xrange(rng, base["xs"], npar) if base["xrange"] is None else None
             elif r < 0.75:
                 other.update(model="polynomial", deg=(base["deg"] % 3) + 1, degrees_kw=True)
+                other.pop("parnames", None)
             else:
                 m = "linear" if base["model"] != "linear" else "quadratic"
                 other.update(model=m, deg={"linear": 1, "quadratic": 2}[m])
+                other.pop("parnames", None)
             if other != reqs[0] and len(base["xs"]) > nparams_of(dict(base, **other)) + 1:
                 reqs.append(other)
 
@@ -792,6 +905,14 @@ def gen_history(rng, curve=None):
         steps = [["fit", 0]]
         if len(reqs) == 2:
             steps += [["fit", 1], ["fit", 0]]
+        bad = None
+        if rng.random() < 0.25:
+            # a request that must be rejected, offered twice, leaves nothing behind: the fits after it are unaffected
+            what = rng.choice(["lo>hi", "badlen", "nonreal"])
+            reqs.append(dict(reqs[0], malformed=what,
+                             xrange=[max(base["xs"]), min(base["xs"])] if what == "lo>hi" else what))
+            bad = len(reqs) - 1
+            steps += [["fit", bad], ["fit", bad], ["fit", 0]]
         for _ in range(rng.randrange(1, 3)):
             st = edit()
             steps.append(st)
@@ -800,7 +921,9 @@ def gen_history(rng, curve=None):
             elif st[0] == "yerr1":
                 yerr[st[1]] = st[2]
             steps.append(["fit", 0])
-            if len(reqs) == 2:
+            if bad is not None and rng.random() < 0.5:
+                steps += [["fit", bad], ["fit", 0]]
+            if len(reqs) - (bad is not None) == 2:
                 steps.append(["fit", 1])
                 if rng.random() < 0.5:
                     steps.append(["fit", 0])
@@ -837,6 +960,8 @@ def gen_multi(rng):
             def another():
                 return gen_curve_case(rng, model=first["model"], yscale=first.get("yscale"))
         fits = [first]
+        if rng.random() < 0.2:
+            fits.append(copy.deepcopy(first))          # the very same request again, both results alive
         for _ in range(rng.randrange(1, 3)):
             c = another()
             if c is None:
@@ -1170,6 +1295,9 @@ def shrink_case(case, fails):
     for key, val in (("mode", "lists"), ("designator", "str"), ("xrange_type", "tuple")):
         if best.get(key) not in (None, val):
             attempt(dict(best, **{key: val}))
+    for key in ("numtype", "parnames", "preread", "plot", "as_lambda"):
+        if best.get(key):
+            attempt({k: v for k, v in best.items() if k != key})
     for key in ("xrange", "xerr", "yerr"):
         if best.get(key) is not None:
             attempt(dict(best, **{key: None}))
